@@ -85,15 +85,68 @@ def start(verif, repo, prop):
     def on_line(code, line):
         h = hits.get(code.co_filename)
         if h is None:
-            rp = os.path.realpath(code.co_filename)
-            h = hits.get(rp)
-            if h is None:
-                return mon.DISABLE
-        h.add(line)
+            h = hits.get(os.path.realpath(code.co_filename))
+        if h is not None:
+            h.add(line)
         return mon.DISABLE
 
+    # LOCAL events on the code objects of the anchored modules only: a global LINE event costs a callback for every line
+    # of every library the case touches (measured: 3x the run time of C18), local events cost nothing elsewhere.
+    import importlib
+    import types
+
+    codes = []
+    seen = set()
+
+    def add_code(c):
+        if id(c) in seen or not isinstance(c, types.CodeType):
+            return
+        seen.add(id(c))
+        if os.path.realpath(c.co_filename) in wanted:
+            codes.append(c)
+        for k in c.co_consts:
+            if isinstance(k, types.CodeType):
+                add_code(k)
+
+    def add_obj(o, depth=0):
+        if depth > 3:
+            return
+        if isinstance(o, (staticmethod, classmethod)):
+            o = o.__func__
+        if isinstance(o, property):
+            for f in (o.fget, o.fset, o.fdel):
+                if f is not None:
+                    add_obj(f, depth + 1)
+            return
+        f = getattr(o, "__wrapped__", None)
+        if f is not None and f is not o:
+            add_obj(f, depth + 1)
+        c = getattr(o, "__code__", None)
+        if isinstance(c, types.CodeType):
+            add_code(c)
+        if isinstance(o, type):
+            for v in list(vars(o).values()):
+                add_obj(v, depth + 1)
+
+    for pth, rel in wanted.items():
+        name = rel[:-3].replace("/", ".")
+        try:
+            m = importlib.import_module(name)
+        except Exception:  # noqa: BLE001
+            continue
+        for v in list(vars(m).values()):
+            if getattr(v, "__module__", None) == name or isinstance(v, type):
+                add_obj(v)
+    if not codes:
+        mon.free_tool_id(_TOOL)
+        return False
     mon.register_callback(_TOOL, mon.events.LINE, on_line)
-    mon.set_events(_TOOL, mon.events.LINE)
+    for c in codes:
+        try:
+            mon.set_local_events(_TOOL, c, mon.events.LINE)
+        except Exception:  # noqa: BLE001
+            pass
+    _state["codes"] = codes
     _state.update(on=True, hits=hits, wanted=wanted, where=where, repo=repo)
     return True
 
@@ -139,7 +192,8 @@ def stop():
         return {}
     mon = sys.monitoring
     try:
-        mon.set_events(_TOOL, 0)
+        for c in _state.get("codes", []):
+            mon.set_local_events(_TOOL, c, 0)
         mon.register_callback(_TOOL, mon.events.LINE, None)
         mon.free_tool_id(_TOOL)
     except Exception:
